@@ -27,9 +27,9 @@
 #include "mp/nl-writer2.h"
 #include "mp/nl-writer2.hpp"
 
+#include "h_nlcrash.h"
 #include "h_nljson.h"
 #include "h_nlrec.h"
-#include "vtrace.h"
 
 // ----------------------------------------------------------------- atoms
 static uint64_t Bits(double d) { uint64_t u; memcpy(&u, &d, 8); return u; }
@@ -328,7 +328,7 @@ static void RunCase(const vj::Value &c, FILE *out, const std::string &work, cons
       Cfg cfg{binary != 0, cfgs[q][0].num() != 0, cfgs[q][1].num() != 0, cfgs[q][2].num(), cfgs[q][3].num()};
       char ctx[200];
       snprintf(ctx, sizeof ctx, "case %d cfg %d %s", c.at("id").num(), (int)q, binary ? "binary" : "text");
-      vtrace_ctx(ctx);
+      nlc::Ctx(ctx);
       std::string line = "{\"e\":\"Exec\",\"case\":" + std::to_string(c.at("id").num()) + ",\"q\":" + std::to_string(q) +
           ",\"fmt\":" + std::to_string(binary) + ",\"comments\":" + (cfg.comments ? "true" : "false") +
           ",\"bf\":" + (cfg.bounds_first ? "true" : "false") + ",\"cs\":" + std::to_string(cfg.colsizes) +
@@ -395,13 +395,17 @@ int main(int argc, char **argv) {
   std::ifstream in(cases);
   std::string text;
   std::string errfile = work + "/stderr.txt";
+  nlc::OpenCtx(work + "/ctx.txt");
   while (std::getline(in, text)) {
     if (text.empty()) continue;
     fflush(out);
+    int id = -1;
+    size_t p = text.find("\"id\":");
+    if (p != std::string::npos) id = atoi(text.c_str() + p + 5);
+    nlc::Ctx(("case " + std::to_string(id)).c_str());
     pid_t pid = fork();
     if (pid < 0) { perror("fork"); return 2; }
     if (pid == 0) {
-      vtrace_install(out);
       if (!freopen(errfile.c_str(), "w", stderr)) _exit(96);
       alarm(120);
       int rc = 0;
@@ -409,7 +413,7 @@ int main(int argc, char **argv) {
         vj::P c = vj::parse(text);
         RunCase(*c, out, work, keepdir);
       } catch (const std::exception &e) {
-        fprintf(out, "\n{\"e\":\"Crash\",\"what\":\"harness exception\",\"ctx\":%s}\n", vj::esc(std::string(vtrace_ctx_) + ": " + e.what()).c_str());
+        fprintf(stderr, "harness exception: %s\n", e.what());
         rc = 95;
       }
       fflush(out);
@@ -417,24 +421,8 @@ int main(int argc, char **argv) {
     }
     int st = 0;
     waitpid(pid, &st, 0);
-    bool ok = WIFEXITED(st) && WEXITSTATUS(st) == 0;
-    if (!ok && !(WIFEXITED(st) && (WEXITSTATUS(st) == 97 || WEXITSTATUS(st) == 95))) {
-      // died without writing its own Crash record (sanitizer exit code, signal, timeout)
-      std::string tail;
-      std::ifstream ef(errfile, std::ios::binary);
-      std::string all((std::istreambuf_iterator<char>(ef)), std::istreambuf_iterator<char>());
-      tail = all.size() > 1200 ? all.substr(0, 1200) : all;
-      int id = -1;
-      size_t p = text.find("\"id\":");
-      if (p != std::string::npos) id = atoi(text.c_str() + p + 5);
-      const char *what = WIFSIGNALED(st) ? (WTERMSIG(st) == SIGALRM ? "Hang" : "signal") : "exit";
-      fseek(out, 0, SEEK_END);
-      fprintf(out, "\n{\"e\":\"%s\",\"case\":%d,\"status\":%d,\"what\":\"%s\",\"stderr\":%s}\n",
-              WIFSIGNALED(st) && WTERMSIG(st) == SIGALRM ? "Hang" : "Crash", id,
-              WIFEXITED(st) ? WEXITSTATUS(st) : -WTERMSIG(st), what, vj::esc(tail).c_str());
-    } else {
-      fseek(out, 0, SEEK_END);
-    }
+    fseek(out, 0, SEEK_END);
+    nlc::Report(out, st, errfile, "\"case\":" + std::to_string(id) + ",");
   }
   fclose(out);
   return 0;
